@@ -369,7 +369,8 @@ func (e *Exec) choose(kind string, guards []*Term) int {
 	if e.concrete != nil {
 		if free {
 			if e.freePos >= len(e.freeTrail) {
-				panic(pathAbort{"fatal", "concrete re-execution ran out of recorded free choices at " + kind})
+				// past the recorded part of the schedule (e.g. after the violation point): any choice will do
+				return 0
 			}
 			i = e.freeTrail[e.freePos]
 			e.freePos++
@@ -689,6 +690,33 @@ func (e *Exec) runPath(entry *ssa.Function) {
 	main.vc = []int{1}
 	main.vcAll = []int{1}
 	e.resume(main)
+	e.schedLoop(main)
+	// tear down the remaining threads
+	e.aborting = true
+	for _, t := range e.threads {
+		if !t.done {
+			e.resume(t)
+		}
+	}
+	if e.abort != nil {
+		e.endKind, e.endMsg = e.abort.kind, e.abort.msg
+	} else {
+		e.endKind = "complete"
+	}
+}
+
+func (e *Exec) schedLoop(main *Thread) {
+	defer func() {
+		if r := recover(); r != nil {
+			if pa, ok := r.(pathAbort); ok {
+				if e.abort == nil {
+					e.abort = &pa
+				}
+				return
+			}
+			panic(r)
+		}
+	}()
 	for {
 		if e.abort != nil || main.done {
 			break
@@ -752,18 +780,6 @@ func (e *Exec) runPath(entry *ssa.Function) {
 		e.schedTrace = append(e.schedTrace, ch.id)
 		e.transitions++
 		e.resume(ch)
-	}
-	// tear down the remaining threads
-	e.aborting = true
-	for _, t := range e.threads {
-		if !t.done {
-			e.resume(t)
-		}
-	}
-	if e.abort != nil {
-		e.endKind, e.endMsg = e.abort.kind, e.abort.msg
-	} else {
-		e.endKind = "complete"
 	}
 }
 
